@@ -4,6 +4,7 @@
 
 mod c17;
 mod c18;
+mod c20;
 mod catalogue;
 mod extract;
 mod front;
@@ -29,6 +30,7 @@ fn main() {
     match args[1].as_str() {
         "C17" => c17::run(tier),
         "C18" => c18::run(tier),
+        "C20" => c20::run(tier),
         other => mcx::machinery(format!("unknown property {other}")),
     }
 }
@@ -41,6 +43,7 @@ fn replay(path: &str) -> ! {
     match prop {
         "C17" => c17::replay(w),
         "C18" => c18::replay(w),
+        "C20" => c20::replay(w),
         other => mcx::machinery(format!("no replay for property {other}")),
     }
 }
